@@ -7,6 +7,7 @@ SC = "radix_engine::system::system_callback::System"
 INIT = "<radix_engine::system::system_callback::System as radix_engine::kernel::kernel_callback_api::KernelTransactionExecutor>::init"
 IHN = r"radix_transactions::model::.*IntentHashNullification$|::IntentHashNullification$"
 TT = "radix_engine::blueprints::transaction_tracker::package::"
+TT_SUB = TT + "TransactionTrackerSubstateV1"
 
 
 def run(ctx):
@@ -122,4 +123,73 @@ def run(ctx):
     if ring is not None:
         for nm, v in lits:
             ctx.ob(f"ring|covers|{nm}", v is not None and v <= ring, f"max_epoch_range {v} in {nm}() vs ring coverage {ring} epochs")
-    ctx.assume("the ring arithmetic of partition_for_expiry_epoch/advance over long epoch histories is value-level and not decided")
+    ctx.rule("T8 sibling agreement on the ring size: wherever the tracker code subtracts the inclusive partition-range bounds "
+             "(partition_range_end_inclusive - partition_range_start_inclusive) the result is turned into the number of partitions by `+ 1` before "
+             "it is used (as a modulus, a multiplier or a wrap-around distance); advance() wraps to partition_range_start_inclusive exactly on "
+             "start_partition == partition_range_end_inclusive or steps by + 1 — the lookup and the rotation must agree on the ring having "
+             "end - start + 1 slots")
+    subs, bad = 0, []
+    for name, f in sorted(F.fns.items()):
+        if not f.mod.startswith("radix_engine::blueprints::transaction_tracker"):
+            continue
+        if not any(x.endswith(".partition_range_end_inclusive") for x in f.fr):
+            continue
+        b = ctx.body(name)
+        adds1 = []
+        for i in range(b.n):
+            for st in b.stmts(i):
+                if st["k"] == "=" and st["rv"]["k"] == "bin" and st["rv"]["op"].startswith("Add") and b.const_value(st["rv"]["b"]) == 1:
+                    adds1.append((i, st))
+        for i in range(b.n):
+            for st in b.stmts(i):
+                if st["k"] != "=" or st["rv"]["k"] != "bin" or not st["rv"]["op"].startswith("Sub"):
+                    continue
+                oa, ob = b.origins(st["rv"]["a"]), (b.origins(st["rv"]["b"]) if st["rv"]["b"][0] != "k" else [])
+                if oa and ob and all(x.proj[-1:] == (".partition_range_end_inclusive",) for x in oa) and all(x.proj[-1:] == (".partition_range_start_inclusive",) for x in ob):
+                    subs += 1
+                    dst = st["p"][0]
+                    plus1 = any(any(a.kind == "bin" and a.what.startswith("Sub") and a.bb == i for a in b.origins(ad["rv"]["a"])) for _, ad in adds1)
+                    # every *other* consumer must go through the +1 value: the raw difference is read only by that Add
+                    raw_uses = 0
+                    for j in range(b.n):
+                        for s2 in b.stmts(j):
+                            if s2["k"] == "=" and s2["rv"]["k"] == "bin" and s2 is not st:
+                                for side in ("a", "b"):
+                                    o = s2["rv"][side]
+                                    if o[0] != "k" and any(a.kind == "bin" and a.what.startswith("Sub") and a.bb == i for a in b.origins(o)):
+                                        if not (s2["rv"]["op"].startswith("Add") and b.const_value(s2["rv"]["b"]) == 1):
+                                            raw_uses += 1
+                    if not plus1 or raw_uses:
+                        bad.append((name.rsplit("::", 1)[1], b.loc(i), plus1, raw_uses))
+    ctx.floor("ring-size|inclusive-range-subtractions", subs, 1)
+    ctx.ob("ring-size|end-minus-start-is-followed-by-plus-one", not bad,
+           f"{subs} subtraction(s) of the inclusive range bounds, all turned into a slot count by + 1" if not bad else
+           f"range-bound difference used without + 1 (ring of end - start slots instead of end - start + 1): {bad}", bad[0][1] if bad else "")
+    n = TT_SUB + "::advance"
+    if ctx.anchor(n):
+        b = ctx.body(n)
+        writes = [(i, st) for i in range(b.n) for st in b.stmts(i) if st["k"] == "=" and st["p"][-1:] == [".start_partition"]]
+        ok = bool(writes)
+        forms = []
+        for i, st in writes:
+            ats = b.origins(st["rv"]["o"]) if st["rv"]["k"] == "use" else []
+            for a in ats:
+                if a.kind == "param" and a.proj[-1:] == (".partition_range_start_inclusive",):
+                    forms.append("wrap-to-range-start")
+                elif a.kind == "bin" and a.what.startswith("Add"):
+                    forms.append("step+1" if b.const_value(a.extra["b"]) == 1 else "step+?")
+                elif a.kind == "param" and a.proj[-1:] == (".start_partition",):
+                    pass
+                elif a.kind == "bin" and a.what.startswith("Rem"):
+                    forms.append("modular")
+                else:
+                    forms.append(f"other:{a}")
+        eqg = [sb for sb in b.switches() if any(a.kind == "bin" and a.what == "Eq" and
+                                                any(x.proj[-1:] == (".partition_range_end_inclusive",) for x in b.origins(a.extra["b"]) + b.origins(a.extra["a"]))
+                                                for a in b.switch_info(sb)["atoms"])]
+        if "modular" in forms:
+            good = True      # the modulus is covered by the +1 rule above
+        else:
+            good = set(forms) == {"wrap-to-range-start", "step+1"} and len(eqg) == 1
+        ctx.ob("advance|wraps-at-range-end-else-steps-by-one", ok and good, f"start_partition update forms: {sorted(set(forms))}; wrap test(s) on range end: bb{eqg}", b.loc())
+    ctx.assume("the ring arithmetic of partition_for_expiry_epoch/advance over long epoch histories is value-level and not decided beyond the slot-count agreement above")
